@@ -27,17 +27,24 @@ def sh(cmd, cwd=None, env=None, timeout=3600):
     return p.returncode, p.stdout + p.stderr
 
 
+import threading
+
+_GIT_LOCK = threading.Lock()  # git worktree add/remove of one repository must not run concurrently
+
+
 def worktree():
     wt = tempfile.mkdtemp(prefix="sw.", dir="/tmp")
     os.rmdir(wt)
-    rc, out = sh(["git", "-C", "/repo", "worktree", "add", "-q", "--detach", wt, "HEAD"])
+    with _GIT_LOCK:
+        rc, out = sh(["git", "-C", "/repo", "worktree", "add", "-q", "--detach", wt, "HEAD"])
     if rc:
         raise SystemExit("cannot create worktree: " + out)
     return wt
 
 
 def rm_worktree(wt):
-    sh(["git", "-C", "/repo", "worktree", "remove", "--force", wt])
+    with _GIT_LOCK:
+        sh(["git", "-C", "/repo", "worktree", "remove", "--force", wt])
     shutil.rmtree(wt, ignore_errors=True)
 
 
